@@ -1077,7 +1077,7 @@ func (g *c09Gen) program() string {
 
 func runC09(c *Ctx) {
 	r := c.Res
-	r.Rule = "(1) strings: corpus + every single byte + PRNG mixes of escapes-worthy ASCII, control bytes, multi-byte runes (incl. U+2028/9, surrogate-range and >U+10FFFF encodings) and invalid bytes: Go quoteString vs Lean quoteString (bytes), and unquoteBytes(quoteString s) = s on the real code for valid UTF-8 (non-trivial = has a byte that is escaped or non-ASCII). (2) topoSort: pipelines of 1..9 calls over random dependency graphs (DAGs, forward/backward references, occasional cycles): real (*Pipeline).topoSort order vs Lean topoSort, plus permutation / dependency order / second-run-is-identity monitors (non-trivial = at least one call must move). (3) FormatSrcBytes on the repo's .mro files, generated programs (includes, dotted filetypes, structs with help/outname, stages and pipelines interleaved; comments before declarations/params/bindings/calls/resource keys/retain entries; every literal form; stage parameters with help/outname, typed maps and arrays, default outputs, ids of 29..36 bytes and help strings of 19..26 bytes around the formatter's column thresholds, keyword-like identifiers; every src language with arguments and escapes; split / split using chunk parameters; using blocks with any subset and order of mem_gb|memgb, vmem_gb|vmemgb, threads, special, volatile = strict|false, repeated keys, resource values with sign, zero spellings incl. -0, fractions below and above 1 incl. k/1024 and values between, integers, large values, exponent spellings, leading zeros, rarely > 1e12; stage and pipeline retains; calls with keyword and bound modifiers in any order, disabled, wildcard bindings, map calls, aliased or not, forward references; returns with 0..3 bindings) and parsable C08-style mutants: re-parse, fixed point, AST dump equal up to call order, comment multiset (non-trivial = formatter changed the text); the AST dump is audited on every run (c09audit.go): reflect walks every struct type reachable from syntax.Ast, every exported field must be classified as dumped or excluded with a reason, every dumped field is altered in a parsed fixed program and the dump must change. (4) include graphs: diamond + nested directories, combined source compiles alone to an equivalent AST. (5) value expressions: generated expression ASTs (depth <= 4, about 80% well-formed, the rest with NaN/Inf/-0, invalid UTF-8, reserved or non-identifier keys and references, nil arrays; prefix \"\", four spaces or blanks+tab): syntax.FormatExp vs the Lean printer for all of them, Parser.ParseValExp on the printed text vs the Lean reader for all of them, and for those the model calls well-formed the real text re-parses to the normalised AST (nil array -> null, integral float -> int) and prints to the same text again (non-trivial = the text has a line break, an escape or a reference); then near-miss texts (printed texts and hand-written seeds mutated by 1-3 byte/line/comma/comment edits, ASCII outside string literals): ParseValExp vs the Lean reader (both reject or same AST), the parser never panics, every accepted well-formed value survives print + read."
+	r.Rule = "(1) strings: corpus + every single byte + PRNG mixes of escapes-worthy ASCII, control bytes, multi-byte runes (incl. U+2028/9, surrogate-range and >U+10FFFF encodings) and invalid bytes: Go quoteString vs Lean quoteString (bytes), and unquoteBytes(quoteString s) = s on the real code for valid UTF-8 (non-trivial = has a byte that is escaped or non-ASCII). (2) topoSort: pipelines of 1..9 calls over random dependency graphs (DAGs, forward/backward references, occasional cycles): real (*Pipeline).topoSort order vs Lean topoSort, plus permutation / dependency order / second-run-is-identity monitors (non-trivial = at least one call must move). (3) FormatSrcBytes on the repo's .mro files, generated programs (includes, dotted filetypes, structs with help/outname, stages and pipelines interleaved; comments before declarations/params/bindings/calls/resource keys/retain entries; every literal form; stage parameters with help/outname, typed maps and arrays, default outputs, ids of 29..36 bytes and help strings of 19..26 bytes around the formatter's column thresholds, keyword-like identifiers; every src language with arguments and escapes; split / split using chunk parameters; using blocks with any subset and order of mem_gb|memgb, vmem_gb|vmemgb, threads, special, volatile = strict|false, repeated keys, resource values with sign, zero spellings incl. -0, fractions below and above 1 incl. k/1024 and values between, integers, large values, exponent spellings, leading zeros, rarely > 1e12; stage and pipeline retains; calls with keyword and bound modifiers in any order, disabled, wildcard bindings, map calls, aliased or not, forward references; returns with 0..3 bindings) and parsable C08-style mutants: re-parse, fixed point, AST dump equal up to call order, comment multiset (non-trivial = formatter changed the text); the AST dump is audited on every run (c09audit.go): reflect walks every struct type reachable from syntax.Ast, every exported field must be classified as dumped or excluded with a reason, every dumped field is altered in a parsed fixed program and the dump must change. (4) include graphs: diamond + nested directories, combined source compiles alone to an equivalent AST. (5) value expressions: generated expression ASTs (depth <= 4, about 80% well-formed, the rest with NaN/Inf/-0, invalid UTF-8, reserved or non-identifier keys and references, nil arrays; prefix \"\", four spaces or blanks+tab): syntax.FormatExp vs the Lean printer for all of them, Parser.ParseValExp on the printed text vs the Lean reader for all of them, and for those the model calls well-formed the real text re-parses to the normalised AST (nil array -> null, integral float -> int) and prints to the same text again (non-trivial = the text has a line break, an escape or a reference); then near-miss texts (printed texts and hand-written seeds mutated by 1-3 byte/line/comma/comment edits, among them bytes >= 0x80 outside string literals: Unicode white space and its neighbours, U+FFFD and invalid or truncated UTF-8 between tokens, inside identifiers and numbers, inside comments, comments at the end of the input): ParseValExp vs the Lean reader (both reject or same AST), the parser never panics, every accepted well-formed value survives print + read; on every one of those texts and on every printed text the token stream of the real scanner (mmLexInfo.Lex until the end of the input or an INVALID token) vs the model's lexAll, token by token."
 	if c.Drv == nil {
 		fatal("C09 needs the Lean driver")
 	}
